@@ -512,7 +512,7 @@ SLOW_EXTREMES = [      # thorough tier only: each needs 10-40 s in one of the pr
 ]
 
 def gen_extreme(tier, rng):
-    n = 120 if tier == "quick" else 20000
+    n = 200 if tier == "quick" else 20000
     out = [gen_extreme_one(rng).line() for _ in range(n)]
     if tier != "quick": out += SLOW_EXTREMES
     return out
